@@ -82,6 +82,14 @@ def timing_scenarios(tier):
     two("exec-timeout-before-task-timeout", d, workers={"f1": {"*": NONE}}, budget=1)
     d = chain(("W", Wait(10)), Z); d["TimeoutSeconds"] = 4
     two("exec-timeout-in-wait", d, budget=1)
+    # the Task's own deadline and the execution deadline are the same instant (a start-state Task with the machine's TimeoutSeconds; a
+    # late Task event for which both have passed): it is the execution that has run out of time, and that cannot be intercepted
+    # (with a catcher only: a retrier would re-enter the Task, whose second attempt then meets the execution deadline anyway)
+    CATCH_ONLY = {"Catch": ALL["Catch"]}
+    d = chain(("T", Task("f1", TimeoutSeconds=4, **CATCH_ONLY)), Z); d["TimeoutSeconds"] = 4
+    two("exec-timeout-equals-task-timeout", d, workers={"f1": {"*": NONE}}, budget=1)
+    d = chain(("A", Pass()), ("T", Task("f1", TimeoutSeconds=2, **CATCH_ONLY)), Z); d["TimeoutSeconds"] = 4
+    two("exec-timeout-late-task-event-both-passed", d, workers={"f1": {"*": NONE}}, budget=2, other_wait=6)
     # the Task (Wait) event itself is delivered after the execution deadline (backlog): still an uninterceptable execution time-out
     d = chain(("A", Pass()), ("T", Task("f1", TimeoutSeconds=20, **ALL)), Z); d["TimeoutSeconds"] = 4
     two("exec-timeout-late-task-event", d, workers={"f1": {"*": NONE}}, budget=2, other_wait=6)
